@@ -210,6 +210,11 @@ pub fn render_frag(r: &R, fr: FnRef, sel: &str, header: &str) -> Result<(String,
                         Pat::Reference(pr) if matches!(&*pr.pat, Pat::Ident(_)) => {
                             // |&x| : header declares x by value
                         }
+                        Pat::Reference(pr) => {
+                            // |&(a, b)| binds through the reference: the same as `let (a, b) = *arg;`
+                            r.note("R5 closure parameter pattern `&(..)` -> `let (..) = *arg`");
+                            lets.push(format!("let {} = *qx_a{};", r.pat(&pr.pat), k))
+                        }
                         other => lets.push(format!("let {} = qx_a{};", r.pat(other), k)),
                     }
                 }
